@@ -129,6 +129,24 @@ def table():
         for wname, (before, after) in wraps.items():
             ps = (params + ", " if params else "") + "flag: bool"
             t.append(("%s:in_%s" % (name, wname), PRE + poke + fn(ps, pre_lines + before + [stmt] + after), want))
+    # the address of something immutable handed to a function that writes through it, with the call standing in every position an
+    # expression can stand in (the analyzer has to walk into all of them); the same with a variable of the function is accepted
+    bump = "fn bump(x: &i32) -> usize\n{\n\tx = 99;\n\treturn: 0\n}\nfn take(a: usize, b: usize)\n{\n}\nstruct P\n{\n\ta: usize,\n\tb: usize,\n}\n"
+    positions = {
+        "target_index": ["var t: [4]i32 = [0, 0, 0, 0];", "t[%s] = 1;"], "target_index_nested": ["var t: [2][2]i32 = [[0, 0], [0, 0]];", "t[0][%s] = 1;"],
+        "target_index_arith": ["var t: [4]i32 = [0, 0, 0, 0];", "t[1 + %s] = 1;"],
+        "value_index": ["var t: [4]i32 = [0, 0, 0, 0];", "var r = t[%s];"], "assigned_value": ["var r: usize = 0;", "r = %s;"],
+        "init": ["var r = %s;"], "binary_right": ["var r = 1usize + %s;"], "comparison": ["if %s == 0usize", "{", "}"],
+        "comparison_right": ["if 0usize == %s", "{", "}"], "if_goto": ["if %s == 0usize", "\tgoto end;", "end:"],
+        "argument": ["take(1, %s);"], "nested_call_argument": ["take(%s + 1, 2);"], "array_element": ["var r = [1usize, %s];"],
+        "struct_member": ["var r = P { a: 1, b: %s };"], "cast_operand": ["var r = %s as u8;"], "statement": ["%s;"],
+    }
+    sources = {"struct_view_member": ("s: S", "bump(&s.m)"), "constant": ("", "bump(&K)"), "value_param": ("x: i32", "bump(&x)")}
+    for pname, lines in positions.items():
+        for sname, (params, call) in sources.items():
+            t.append(("addr:%s:in_%s" % (sname, pname), PRE + bump + fn(params, [l.replace("%s", call) for l in lines]), {530}))
+        t.append(("addr:variable:in_%s" % pname, PRE + bump + fn("", ["var mine: i32 = 1;"] + [l.replace("%s", "bump(&mine)") for l in lines]),
+                  "accept"))
     # pointer parameter needs explicit &
     for ty, decl, arg in [("&i32", "var a: i32 = 1;", "a"), ("&[]i32", "var a: [2]i32 = [1, 2];", "a"),
                           ("&S", None, None), ("&Wd", "var a = Wd { p: 1, q: 2 };", "a"),
